@@ -15,6 +15,16 @@
 (*   "asy"  pool.run(async) -> future                                      *)
 (*   "res"  pool.resume(suspend_point holding a coroutine)                 *)
 (*   "wst"  pool.run_detached(job that calls pool.stop() on the worker)    *)
+(*   "aw"   coroutine doing co_await pool(future): started on the client;  *)
+(*          await_ready() and the subscription are separate steps (the     *)
+(*          harness wraps the awaiter so that both start at a marker);     *)
+(*          already resolved / refused subscription: the coroutine goes on *)
+(*          in the client thread (documented); otherwise it is suspended   *)
+(*          and whoever resolves the future calls pool.resume() = enqueue  *)
+(*   "rvj"  pool.run_detached(job that resolves the future awaited by the  *)
+(*          NEXT "aw" of the script): resolution on a worker, racing with  *)
+(*          the client between await_ready() and the subscription          *)
+(*   "rv"   the client resolves the future awaited by the PREVIOUS "aw"    *)
 (* and of "stop" (pool.stop() from the client).  The pool has the workers  *)
 (* WOrder (creation order).  stop() can thus run on the client, on a       *)
 (* worker, or on both concurrently.                                        *)
@@ -34,7 +44,13 @@ CONSTANTS Script,    \* e.g. <<"co", "fn", "stop">>
 
 Workers == {WOrder[i] : i \in 1..Len(WOrder)}
 Threads == Workers \cup {"c"}
-Jobs == {i \in 1..Len(Script) : Script[i] # "stop"}
+Jobs == {i \in 1..Len(Script) : Script[i] \notin {"stop", "rv"}}
+AwJobs == {i \in 1..Len(Script) : Script[i] = "aw"}
+(* the "aw" job whose future script element i resolves (0: none) *)
+Target(i) ==
+    IF Script[i] = "rvj" THEN (IF \E k \in AwJobs : k > i THEN CHOOSE k \in AwJobs : k > i /\ \A m \in AwJobs : m > i => k <= m ELSE 0)
+    ELSE IF Script[i] = "rv" THEN (IF \E k \in AwJobs : k < i THEN CHOOSE k \in AwJobs : k < i /\ \A m \in AwJobs : m < i => k >= m ELSE 0)
+    ELSE 0
 
 VARIABLES
     q,         \* _queue: sequence of job ids
@@ -48,11 +64,12 @@ VARIABLES
     sth,       \* per thread executing stop(): swapped-out thread list still to join
     sq,        \* per thread executing stop(): swapped-out queue
     iscur,     \* per worker: thread-local _current still points to the pool
-    jst,       \* per job: "new" | "queued" | "running" | "ran" | "cancelled" | "dropped"
+    jst,       \* per job: "new" | "waiting" (aw: subscribed, suspended) | "queued" | "running" | "ran" | "cancelled" | "dropped"
+    resolved,  \* per aw job: its future has been resolved
     ranby,     \* per job: thread that executed it ("none")
     wdone      \* workers whose thread function returned
 
-vars == <<q, exit, pthreads, cvwait, notified, pc, cur, cpos, sth, sq, iscur, jst, ranby, wdone>>
+vars == <<q, exit, pthreads, cvwait, notified, pc, cur, cpos, sth, sq, iscur, jst, resolved, ranby, wdone>>
 
 Init ==
     /\ q = <<>>
@@ -67,13 +84,14 @@ Init ==
     /\ sq = [t \in Threads |-> <<>>]
     /\ iscur = [w \in Workers |-> TRUE]
     /\ jst = [j \in Jobs |-> "new"]
+    /\ resolved = [j \in AwJobs |-> FALSE]
     /\ ranby = [j \in Jobs |-> "none"]
     /\ wdone = {}
 
 Kind(j) == Script[j]
 
 (* a closure dies without having been called *)
-DeadState(j) == IF Kind(j) = "res" THEN "dropped" ELSE "cancelled"
+DeadState(j) == IF Kind(j) \in {"res", "aw"} THEN "dropped" ELSE "cancelled"
 
 RECURSIVE KillAll(_, _)
 KillAll(js, st) == IF js = <<>> THEN st ELSE KillAll(Tail(js), [st EXCEPT ![Head(js)] = DeadState(Head(js))])
@@ -86,12 +104,15 @@ SeqRemove(s, x) == SelectSeq(s, LAMBDA y : y # x)
 (* what the client does next after finishing a script step: position p *)
 ClientNext(p) ==
     IF p > Len(Script) THEN "done"
-    ELSE IF Script[p] = "stop" THEN "stop_lock" ELSE "enq_lock"
+    ELSE IF Script[p] = "stop" THEN "stop_lock"
+    ELSE IF Script[p] = "aw" THEN "aw0"
+    ELSE IF Script[p] = "rv" THEN "rv_mark"
+    ELSE "enq_lock"
 
 CBegin ==
     /\ pc["c"] = "begin"
     /\ pc' = [pc EXCEPT !["c"] = ClientNext(1)]
-    /\ UNCHANGED <<q, exit, pthreads, cvwait, notified, cur, cpos, sth, sq, iscur, jst, ranby, wdone>>
+    /\ UNCHANGED <<q, exit, pthreads, cvwait, notified, cur, cpos, sth, sq, iscur, jst, ranby, wdone, resolved>>
 
 (* enqueue(): lock; if (!_exit) { push; notify_one }; unlock      thread_pool.h:353-359 *)
 Enqueue(t, j, nextpc) ==
@@ -107,7 +128,7 @@ Enqueue(t, j, nextpc) ==
 CEnqueue ==
     /\ pc["c"] = "enq_lock"
     /\ Enqueue("c", cpos, "enq_after")
-    /\ UNCHANGED <<exit, pthreads, cur, cpos, sth, sq, iscur, ranby, wdone>>
+    /\ UNCHANGED <<exit, pthreads, cur, cpos, sth, sq, iscur, ranby, wdone, resolved>>
 
 (* after the unlock: a rejected closure dies here, in the submitter's frame *)
 CAfterEnqueue ==
@@ -115,7 +136,7 @@ CAfterEnqueue ==
     /\ jst' = IF jst[cpos] = "new" THEN [jst EXCEPT ![cpos] = DeadState(cpos)] ELSE jst
     /\ cpos' = cpos + 1
     /\ pc' = [pc EXCEPT !["c"] = ClientNext(cpos + 1)]
-    /\ UNCHANGED <<q, exit, pthreads, cvwait, notified, cur, sth, sq, iscur, ranby, wdone>>
+    /\ UNCHANGED <<q, exit, pthreads, cvwait, notified, cur, sth, sq, iscur, ranby, wdone, resolved>>
 
 -----------------------------------------------------------------------------
 (* stop() -- executable by the client and by a worker (job "wst")            thread_pool.h:47-68 *)
@@ -130,7 +151,7 @@ StopCS(t) ==
     /\ sq' = [sq EXCEPT ![t] = q]
     /\ q' = <<>>
     /\ pc' = [pc EXCEPT ![t] = "stop_after"]
-    /\ UNCHANGED <<cur, cpos, iscur, jst, ranby, wdone>>
+    /\ UNCHANGED <<cur, cpos, iscur, jst, ranby, wdone, resolved>>
 
 (* the end of stop(): the swapped-out queue is destroyed, its closures die; the caller continues up to its
    next lock operation: the client with its script; a worker returns from the job that stopped the pool
@@ -141,10 +162,10 @@ StopFinish(t, ic) ==
          THEN /\ jst' = KillAll(sq[t], jst)
               /\ cpos' = cpos + 1
               /\ pc' = [pc EXCEPT ![t] = ClientNext(cpos + 1)]
-              /\ UNCHANGED <<cur, ranby, wdone>>
+              /\ UNCHANGED <<cur, ranby, wdone, resolved>>
          ELSE /\ jst' = [KillAll(sq[t], jst) EXCEPT ![cur[t]] = "ran"]
               /\ cur' = [cur EXCEPT ![t] = 0]
-              /\ UNCHANGED <<cpos, ranby>>
+              /\ UNCHANGED <<cpos, ranby, resolved>>
               /\ IF ic
                    THEN pc' = [pc EXCEPT ![t] = "loop_lock"] /\ UNCHANGED wdone
                    ELSE pc' = [pc EXCEPT ![t] = "done"] /\ wdone' = wdone \cup {t}
@@ -163,8 +184,8 @@ StopAfter(t) ==
           /\ IF rest = <<>>
                THEN StopFinish(t, IF t \in Workers THEN (iscur[t] /\ ~detachnow) ELSE TRUE)
                ELSE /\ pc' = [pc EXCEPT ![t] = "stop_join"]
-                    /\ UNCHANGED <<cpos, cur, jst, sq, ranby, wdone>>
-    /\ UNCHANGED <<q, exit, pthreads, cvwait, notified>>
+                    /\ UNCHANGED <<cpos, cur, jst, sq, ranby, wdone, resolved>>
+    /\ UNCHANGED <<q, exit, pthreads, cvwait, notified, resolved>>
 
 StopJoin(t) ==
     /\ pc[t] = "stop_join"
@@ -177,8 +198,8 @@ StopJoin(t) ==
           /\ IF rest = <<>>
                THEN StopFinish(t, IF t \in Workers THEN (iscur[t] /\ ~detachnow) ELSE TRUE)
                ELSE /\ pc' = [pc EXCEPT ![t] = "stop_join"]
-                    /\ UNCHANGED <<cpos, cur, jst, sq, ranby, wdone>>
-    /\ UNCHANGED <<q, exit, pthreads, cvwait, notified>>
+                    /\ UNCHANGED <<cpos, cur, jst, sq, ranby, wdone, resolved>>
+    /\ UNCHANGED <<q, exit, pthreads, cvwait, notified, resolved>>
 
 -----------------------------------------------------------------------------
 (* workers                                                                   thread_pool.h:31-45 *)
@@ -187,17 +208,17 @@ WStart(w) ==
     /\ pc[w] = "start"
     /\ pc["c"] # "begin"        \* the workers are created by the pool's constructor
     /\ pc' = [pc EXCEPT ![w] = "loop_lock"]
-    /\ UNCHANGED <<q, exit, pthreads, cvwait, notified, cur, cpos, sth, sq, iscur, jst, ranby, wdone>>
+    /\ UNCHANGED <<q, exit, pthreads, cvwait, notified, cur, cpos, sth, sq, iscur, jst, ranby, wdone, resolved>>
 
 (* the critical section of the dequeue loop, entered by locking or by waking up in the wait *)
 LoopCS(w) ==
     IF q = <<>> /\ ~exit
       THEN /\ cvwait' = Append(cvwait, w)
            /\ pc' = [pc EXCEPT ![w] = "waiting"]
-           /\ UNCHANGED <<q, cur, jst>>
+           /\ UNCHANGED <<q, cur, jst, resolved>>
       ELSE IF exit
       THEN /\ pc' = [pc EXCEPT ![w] = "exit_after"]
-           /\ UNCHANGED <<q, cur, cvwait, jst>>
+           /\ UNCHANGED <<q, cur, cvwait, jst, resolved>>
       ELSE /\ cur' = [cur EXCEPT ![w] = Head(q)]
            /\ q' = Tail(q)
            /\ jst' = [jst EXCEPT ![Head(q)] = "running"]
@@ -207,41 +228,118 @@ LoopCS(w) ==
 WLock(w) ==
     /\ pc[w] = "loop_lock"
     /\ LoopCS(w)
-    /\ UNCHANGED <<exit, pthreads, notified, cpos, sth, sq, iscur, ranby, wdone>>
+    /\ UNCHANGED <<exit, pthreads, notified, cpos, sth, sq, iscur, ranby, wdone, resolved>>
 
 WWake(w) ==
     /\ pc[w] = "waiting"
     /\ w \in notified
     /\ notified' = notified \ {w}
     /\ LoopCS(w)
-    /\ UNCHANGED <<exit, pthreads, cpos, sth, sq, iscur, ranby, wdone>>
+    /\ UNCHANGED <<exit, pthreads, cpos, sth, sq, iscur, ranby, wdone, resolved>>
 
-(* after the unlock: h() runs the job up to its first lock operation (none for ordinary jobs) *)
+(* after the unlock: h() runs the job up to its first lock operation (none for ordinary jobs; stop() for "wst";
+   for "rvj" the enqueue() inside pool.resume() when the awaiting coroutine is already subscribed) *)
 WRun(w) ==
     /\ pc[w] = "job_run"
     /\ ranby' = [ranby EXCEPT ![cur[w]] = w]
     /\ IF Kind(cur[w]) = "wst"
          THEN /\ pc' = [pc EXCEPT ![w] = "stop_lock"]
-              /\ UNCHANGED <<jst, cur, wdone>>
+              /\ UNCHANGED <<jst, cur, wdone, resolved>>
+         ELSE IF Kind(cur[w]) = "rvj" /\ Target(cur[w]) # 0
+         THEN LET tg == Target(cur[w]) IN
+              /\ resolved' = [resolved EXCEPT ![tg] = TRUE]
+              /\ IF jst[tg] = "waiting"
+                   THEN /\ pc' = [pc EXCEPT ![w] = "rs_enq_lock"]
+                        /\ UNCHANGED <<jst, cur, wdone>>
+                   ELSE /\ jst' = [jst EXCEPT ![cur[w]] = "ran"]
+                        /\ cur' = [cur EXCEPT ![w] = 0]
+                        /\ pc' = [pc EXCEPT ![w] = "loop_lock"]
+                        /\ UNCHANGED wdone
          ELSE /\ jst' = [jst EXCEPT ![cur[w]] = "ran"]
               /\ cur' = [cur EXCEPT ![w] = 0]
               /\ pc' = [pc EXCEPT ![w] = "loop_lock"]
-              /\ UNCHANGED wdone
+              /\ UNCHANGED <<wdone, resolved>>
     /\ UNCHANGED <<q, exit, pthreads, cvwait, notified, cpos, sth, sq, iscur>>
+
+-----------------------------------------------------------------------------
+(* co_await pool(future)                                                     thread_pool.h:151-170 *)
+
+(* the coroutine of an "aw" element continues without suspension in the client thread: its body runs here *)
+AwRunsInline(p) ==
+    /\ jst' = [jst EXCEPT ![p] = "ran"]
+    /\ ranby' = [ranby EXCEPT ![p] = "c"]
+    /\ cpos' = cpos + 1
+    /\ pc' = [pc EXCEPT !["c"] = ClientNext(cpos + 1)]
+
+(* await_ready(): the future's ready() *)
+CAwReady ==
+    /\ pc["c"] = "aw0"
+    /\ IF resolved[cpos]
+         THEN AwRunsInline(cpos)
+         ELSE /\ pc' = [pc EXCEPT !["c"] = "awb"]
+              /\ UNCHANGED <<jst, ranby, cpos>>
+    /\ UNCHANGED <<q, exit, pthreads, cvwait, notified, cur, sth, sq, iscur, wdone, resolved>>
+
+(* await_suspend(): set the resume function, subscribe; a refused subscription (resolved meanwhile) means "do not
+   suspend"; otherwise the coroutine stays suspended and the client goes on with its script *)
+CAwSubscribe ==
+    /\ pc["c"] = "awb"
+    /\ IF resolved[cpos]
+         THEN AwRunsInline(cpos)
+         ELSE /\ jst' = [jst EXCEPT ![cpos] = "waiting"]
+              /\ cpos' = cpos + 1
+              /\ pc' = [pc EXCEPT !["c"] = ClientNext(cpos + 1)]
+              /\ UNCHANGED ranby
+    /\ UNCHANGED <<q, exit, pthreads, cvwait, notified, cur, sth, sq, iscur, wdone, resolved>>
+
+(* the client resolves the future of the previous "aw" *)
+CResolve ==
+    /\ pc["c"] = "rv_mark"
+    /\ LET tg == Target(cpos) IN
+       IF tg = 0
+         THEN /\ cpos' = cpos + 1 /\ pc' = [pc EXCEPT !["c"] = ClientNext(cpos + 1)] /\ UNCHANGED resolved
+         ELSE /\ resolved' = [resolved EXCEPT ![tg] = TRUE]
+              /\ IF jst[tg] = "waiting"
+                   THEN pc' = [pc EXCEPT !["c"] = "rs_enq_lock"] /\ UNCHANGED cpos
+                   ELSE cpos' = cpos + 1 /\ pc' = [pc EXCEPT !["c"] = ClientNext(cpos + 1)]
+    /\ UNCHANGED <<q, exit, pthreads, cvwait, notified, cur, sth, sq, iscur, jst, ranby, wdone>>
+
+(* the resolving thread runs perform_resume -> pool.resume(): enqueue([h]{coro_queue::resume(h);}) *)
+RsTarget(t) == IF t = "c" THEN Target(cpos) ELSE Target(cur[t])
+REnqueue(t) ==
+    /\ pc[t] = "rs_enq_lock"
+    /\ Enqueue(t, RsTarget(t), "rs_enq_after")
+    /\ UNCHANGED <<exit, pthreads, cur, cpos, sth, sq, iscur, ranby, wdone, resolved>>
+
+(* after the unlock: a rejected closure dies (bare handle: the coroutine is dropped); the resolving call returns *)
+RAfterEnqueue(t) ==
+    /\ pc[t] = "rs_enq_after"
+    /\ LET tg == RsTarget(t)
+           j1 == IF jst[tg] = "waiting" THEN [jst EXCEPT ![tg] = "dropped"] ELSE jst
+       IN IF t = "c"
+            THEN /\ jst' = j1
+                 /\ cpos' = cpos + 1
+                 /\ pc' = [pc EXCEPT ![t] = ClientNext(cpos + 1)]
+                 /\ UNCHANGED cur
+            ELSE /\ jst' = [j1 EXCEPT ![cur[t]] = "ran"]
+                 /\ cur' = [cur EXCEPT ![t] = 0]
+                 /\ pc' = [pc EXCEPT ![t] = "loop_lock"]
+                 /\ UNCHANGED cpos
+    /\ UNCHANGED <<q, exit, pthreads, cvwait, notified, sth, sq, iscur, ranby, wdone, resolved>>
 
 WExit(w) ==
     /\ pc[w] = "exit_after"
     /\ pc' = [pc EXCEPT ![w] = "done"]
     /\ wdone' = wdone \cup {w}
-    /\ UNCHANGED <<q, exit, pthreads, cvwait, notified, cur, cpos, sth, sq, iscur, jst, ranby>>
+    /\ UNCHANGED <<q, exit, pthreads, cvwait, notified, cur, cpos, sth, sq, iscur, jst, ranby, resolved>>
 
 Next ==
-    \/ CBegin \/ CEnqueue \/ CAfterEnqueue
-    \/ \E t \in Threads : StopCS(t) \/ StopAfter(t) \/ StopJoin(t)
+    \/ CBegin \/ CEnqueue \/ CAfterEnqueue \/ CAwReady \/ CAwSubscribe \/ CResolve
+    \/ \E t \in Threads : StopCS(t) \/ StopAfter(t) \/ StopJoin(t) \/ REnqueue(t) \/ RAfterEnqueue(t)
     \/ \E w \in Workers : WStart(w) \/ WLock(w) \/ WWake(w) \/ WRun(w) \/ WExit(w)
 
-TStep(t) == \/ (t = "c" /\ (CBegin \/ CEnqueue \/ CAfterEnqueue))
-            \/ StopCS(t) \/ StopAfter(t) \/ StopJoin(t)
+TStep(t) == \/ (t = "c" /\ (CBegin \/ CEnqueue \/ CAfterEnqueue \/ CAwReady \/ CAwSubscribe \/ CResolve))
+            \/ StopCS(t) \/ StopAfter(t) \/ StopJoin(t) \/ REnqueue(t) \/ RAfterEnqueue(t)
             \/ (t \in Workers /\ (WStart(t) \/ WLock(t) \/ WWake(t) \/ WRun(t) \/ WExit(t)))
 
 Spec == Init /\ [][Next]_vars /\ \A t \in Threads : WF_vars(TStep(t))
@@ -255,11 +353,15 @@ Quiescent == ~ ENABLED Next
 
 (* never executed twice, never executed and cancelled *)
 AtMostOnce == \A j \in Jobs : ranby[j] # "none" => jst[j] \in {"running", "ran"}
-(* executed only by a worker thread of the pool *)
-RanOnWorker == \A j \in Jobs : ranby[j] = "none" \/ ranby[j] \in Workers
+(* executed only by a worker thread of the pool; co_await pool(awaitable) documents one exception: "If the awaiting
+   operation is already resolved, no thread is allocated and execution continues in current thread" *)
+RanOnWorker == \A j \in Jobs : ranby[j] = "none" \/ ranby[j] \in Workers \/ (Kind(j) = "aw" /\ ranby[j] = "c" /\ resolved[j])
 (* at quiescence after a stop every submission has been executed or cancelled -- never forgotten *)
 RunOrCancelOnce ==
-    (Quiescent /\ exit) => \A j \in Jobs : jst[j] \in {"ran", "cancelled"}
+    (Quiescent /\ exit) => \A j \in Jobs : jst[j] \in {"ran", "cancelled"} \/ (Kind(j) = "aw" /\ ~resolved[j])
+(* a coroutine awaiting pool(future) is never left suspended once the future is resolved and the resolver has returned *)
+AwNotForgotten ==
+    \A j \in AwJobs : (jst[j] = "waiting" /\ resolved[j]) => \E t \in Threads : pc[t] \in {"rs_enq_lock", "rs_enq_after"} /\ RsTarget(t) = j
 (* stop() terminates: no stuck state other than completion of the client script *)
 NoHang == Quiescent => (ClientDone /\ (exit => \A w \in Workers : pc[w] = "done"))
 (* nothing is dropped, ever (violated by the bare-handle closures of resume(): known finding) *)
